@@ -424,7 +424,8 @@ fn abort_stream(s: &TcpStream) {
             std::mem::size_of::<libc::linger>() as libc::socklen_t,
         );
     }
-    let _ = s.shutdown(std::net::Shutdown::Both);
+    // wake a thread blocked in read() without sending a FIN
+    let _ = s.shutdown(std::net::Shutdown::Read);
 }
 
 impl Collector {
@@ -570,8 +571,11 @@ impl Collector {
             return;
         }
         self.inner.cv.notify_all();
-        // wake the accept loop
-        let _ = TcpStream::connect_timeout(&self.http_addr, Duration::from_millis(500));
+        // wake the accept loop (closed by reset so that our own ephemeral port does not linger in TIME_WAIT)
+        if let Ok(wake) = TcpStream::connect_timeout(&self.http_addr, Duration::from_millis(500)) {
+            abort_stream(&wake);
+            drop(wake);
+        }
         let (streams, threads) = {
             let mut st = self.inner.state.lock().unwrap();
             (std::mem::take(&mut st.streams), std::mem::take(&mut st.threads))
